@@ -205,7 +205,7 @@ fn classify(sc: &Scenario, msg: &str) -> Verdict {
         // dropped twice: it counts against delivery (C01), order (C02) and drop accounting (C09) alike
         let list: Vec<(&str, &str)> = match sc.body {
             Body::Chan(_) => vec![("C01", "unsynchronized_payload"), ("C02", "unsynchronized_payload"), ("C09", "unsynchronized_payload")],
-            Body::Bcast(_) => vec![("C07", "unsynchronized_payload"), ("C09", "unsynchronized_payload")],
+            Body::Bcast(_) => vec![("C07", "unsynchronized_payload"), ("C02", "unsynchronized_payload"), ("C09", "unsynchronized_payload")],
             Body::Lock(_) => vec![("C10", "mutual_exclusion")],
         };
         return Verdict::Violation(list.into_iter().map(|(p, r)| (p.to_string(), r.to_string(), m.clone())).collect());
